@@ -106,6 +106,7 @@ type Task struct {
 	PanicVal any
 	PanicStack string
 	matched bool // unbuffered rendezvous (unsupported marker)
+	Frozen bool // killed by a simulated crash (never scheduled again)
 	// user tag, free for the harness
 	Tag int
 }
@@ -931,6 +932,7 @@ func Freeze(pred func(t *Task) bool) int {
 	for _, t := range s.tasks {
 		if t.state != tsExited && t != s.cur && t != s.clockTask && !s.frozen[t.ID] && pred(t) {
 			s.frozen[t.ID] = true
+			t.Frozen = true
 			n++
 		}
 	}
